@@ -44,7 +44,7 @@ class Sym:
         self.args = tuple(args)
 
     def __repr__(self):
-        return "%s%r" % (self.fn, self.args)
+        return "%s(%s)" % (self.fn, ", ".join(js_val(a) for a in self.args))
 
 
 class Marker(Exception):
@@ -521,7 +521,13 @@ def enc_event(ev):
 
 
 def js_val(v):
-    return repr(v) if not (REC.cls is not None and isinstance(v, REC.cls)) else "<self>"
+    if REC.cls is not None and isinstance(v, REC.cls):
+        return "<self>"
+    if isinstance(v, attr.Attribute):
+        return "<Attribute %s>" % v.name
+    if isinstance(v, (Tok, Dflt, Sym)) or v is None or v is attr.NOTHING or isinstance(v, (bool, int, str)):
+        return repr(v)
+    return "<%s object>" % type(v).__name__
 
 
 def js_event(ev):
